@@ -96,6 +96,13 @@ theorem getLast_ne_zero {ws' : List Nat} {ps : List Int} (hlen : ws'.length = of
 
 /-! ### Builder -/
 
+theorem sum_nonneg : ∀ {l : List Int}, (∀ x ∈ l, 0 ≤ x) → 0 ≤ l.sum
+  | [], _ => by simp
+  | a :: r, h => by
+    have := h a List.mem_cons_self
+    have := sum_nonneg (l := r) (fun x hx => h x (List.mem_cons_of_mem _ hx))
+    simp only [List.sum_cons]; omega
+
 theorem growTo_length (ws : List Nat) (e : Int) :
     (growTo ws e).length = max ws.length ((e + 63) / 64).toNat := by
   simp only [growTo, zeros, List.length_append, List.length_replicate]; omega
